@@ -69,8 +69,10 @@ impl TryFrom<&str> for HpoTermId {
         if s.len() < 4 {
             return Err(HpoError::ParseIntError);
         }
+        // `get` instead of slicing: byte 3 might be inside a multi-byte character
+        let number = s.get(3..).ok_or(HpoError::ParseIntError)?;
         Ok(HpoTermId {
-            inner: s[3..].parse::<u32>()?,
+            inner: number.parse::<u32>()?,
         })
     }
 }
